@@ -46,7 +46,7 @@ def cases(tier, seed):
     return out
 
 
-def structure_differs(p, n, k):
+def structure_differs(p, n, k, known_optimum=True):
     g = golden()["functions"].get("%d_%d" % (n, k))
     mn = p.function.GKLS_minima
     M = np.array(mn.local_min, dtype=float)
@@ -57,10 +57,27 @@ def structure_differs(p, n, k):
     vals = [bench.evaluate(p, y) for y in probe_points(n, k)]
     if not close(vals, g["values"]):
         return "values"
-    ko_y, ko_v = bench.declared(p)
-    if not close(ko_y, g["local_min"][1]) or ko_v != -1.0:
-        return "known-optimum"
+    if known_optimum:
+        ko_y, ko_v = bench.declared(p)
+        if not close(ko_y, g["local_min"][1]) or ko_v != -1.0:
+            return "known-optimum"
     return None
+
+
+def basin_points(p, n, rng, per=3):
+    """points strictly inside every attraction ball (where the cubic/quintic splice is evaluated)"""
+    mn = p.function.GKLS_minima
+    M = np.array(mn.local_min, dtype=float)
+    rho = np.array(mn.rho, dtype=float)
+    pts = []
+    for i in range(1, len(rho)):
+        for q in range(per):
+            u = rng.normal(size=n)
+            u /= np.sqrt((u ** 2).sum())
+            x = M[i] + rho[i] * float(rng.uniform(0.1, 0.9)) * u
+            if np.all(np.abs(x) <= 1):
+                pts.append(x)
+    return pts
 
 
 def run_rebuild(c):
@@ -89,6 +106,27 @@ def run_rebuild(c):
             obs["earlier_instances_reaudited"] = obs.get("earlier_instances_reaudited", 0) + 1
             if what and len(viol) < 6:
                 viol.append({"mech": "gkls:earlier-instance-changed-%s" % what, "n": n2, "k": k2, "construction": c2})
+    # one GKLSFunction object re-generated with other function numbers (public SetFunctionNumber): after the call the object
+    # must be function (n, k') - structure and values, also inside basins that were evaluated before the re-generation
+    for (n, k) in list(count)[:2]:
+        p = bench.construct(("gkls", n, k))
+        for k2 in [int(v) for v in rng.integers(1, 101, 3)] + [k]:
+            for x in basin_points(p, n, rng) + list(probe_points(n, k)):
+                bench.evaluate(p, x)
+            p.function.SetFunctionNumber(k2)
+            obs["regenerations"] = obs.get("regenerations", 0) + 1
+            what = structure_differs(p, n, k2, known_optimum=False)
+            if not what:
+                # values inside the basins against a freshly constructed GKLS(n, k2)
+                fresh = bench.construct(("gkls", n, k2))
+                for x in basin_points(fresh, n, rng):
+                    a, b = bench.evaluate(p, x), bench.evaluate(fresh, x)
+                    obs["regenerated_basin_values"] = obs.get("regenerated_basin_values", 0) + 1
+                    if not (a == b):
+                        what = "basin-values"
+                        break
+            if what and len(viol) < 6:
+                viol.append({"mech": "gkls:regenerated-object-differs-from-recorded-%s" % what, "n": n, "from": k, "to": k2})
     obs["max_constructions_of_one_pair"] = max(count.values())
     for (n, k) in count:
         keys.append("rebuild|%d|%d" % (n, k))
@@ -256,7 +294,7 @@ def EXHAUSTIVE(tier):
 def finalize(obs, tier, stats):
     if obs.get("functions", 0) != 400:
         return "only %d of 400 functions audited" % obs.get("functions", 0), {}
-    for k in ("knuth_check", "paraboloid_points", "interior_points", "boundary_pairs", "reference_values_compared", "live_instances_during_audit", "rebuild_constructions", "earlier_instances_reaudited"):
+    for k in ("knuth_check", "paraboloid_points", "interior_points", "boundary_pairs", "reference_values_compared", "live_instances_during_audit", "rebuild_constructions", "earlier_instances_reaudited", "regenerations", "regenerated_basin_values"):
         if not obs.get(k):
             return "%s never observed" % k, {}
     if obs.get("max_constructions_of_one_pair", 0) < 5:
